@@ -7,6 +7,7 @@ import (
 	"fmt"
 	"reflect"
 	"strings"
+	"time"
 
 	bp "ebuverif/internal/busprog"
 	"ebuverif/internal/evt"
@@ -37,6 +38,10 @@ type seqcase struct {
 	// SetBeforePublishHook / SetAfterPublishHook (1 = by other hooks, 2 = removed): from then
 	// on the new ones run once per publish and the old ones never again
 	Swap int `json:"legacy_hooks_replaced_after_first_publish,omitempty"`
+	// Store: the bus persists its events (1 = WithStore(MemoryStore), 2 = that plus a
+	// persistence timeout of an hour): what the handlers and hooks are given is the same -
+	// in particular the timeout bounds the append, not the publish context
+	Store int `json:"store,omitempty"`
 }
 
 func (s seqcase) String() string {
@@ -57,7 +62,21 @@ func (s seqcase) String() string {
 	} else if s.Swap == 2 {
 		sw = " (legacy hooks removed after the first publish)"
 	}
+	sw += []string{"", " (persisted)", " (persisted, with a persistence timeout)"}[s.Store]
 	return "sequence " + strings.Join(p, " ") + sw
+}
+
+// ctxFacts describes what a handler or hook can see of its context besides the values:
+// whether it is cancelled and whether it has a deadline (no publish context here has one).
+func ctxFacts(ctx context.Context) string {
+	s := ""
+	if ctx.Err() != nil {
+		s += ":cancelled"
+	}
+	if _, ok := ctx.Deadline(); ok {
+		s += ":deadline"
+	}
+	return s
 }
 
 type seqInst struct {
@@ -76,20 +95,28 @@ func (in *seqInst) Body() {
 	hookCtx := func(name string) eventbus.PublishHookContext {
 		return func(ctx context.Context, t reflect.Type, ev any) {
 			v, _ := ctx.Value(ctxKey{}).(string)
+			if f := ctxFacts(ctx); f != "" && !in.s.Pubs[evOf(ev)-1].Cancelled {
+				v += f
+			}
 			in.rec.Add(name, evOf(ev), 1, t.String()+"|"+v)
 		}
 	}
-	bus := eventbus.New(eventbus.WithBeforePublish(hook("before")), eventbus.WithBeforePublishContext(hookCtx("beforeCtx")),
-		eventbus.WithAfterPublish(hook("after")), eventbus.WithAfterPublishContext(hookCtx("afterCtx")))
+	opts := []eventbus.Option{eventbus.WithBeforePublish(hook("before")), eventbus.WithBeforePublishContext(hookCtx("beforeCtx")),
+		eventbus.WithAfterPublish(hook("after")), eventbus.WithAfterPublishContext(hookCtx("afterCtx"))}
+	if in.s.Store >= 1 {
+		opts = append(opts, eventbus.WithStore(eventbus.NewMemoryStore()))
+	}
+	if in.s.Store == 2 {
+		opts = append(opts, eventbus.WithPersistenceTimeout(time.Hour)) // virtual time: never expires
+	}
+	bus := eventbus.New(opts...)
 	for ti, T := range types {
 		ti := ti
 		for hi, o := range []evt.SubOpts{{Ctx: true}, {Ctx: true, Async: true, Sequential: true}} {
 			hi := hi
 			T.SubCustom(bus, func(hctx context.Context, id int) {
 				v, _ := hctx.Value(ctxKey{}).(string)
-				if hctx.Err() != nil {
-					v += ":cancelled"
-				}
+				v += ctxFacts(hctx)
 				in.rec.Add("enter", 10*ti+hi, id, v)
 				vrt.Point()
 			}, nil, o)
@@ -203,13 +230,19 @@ func (in *seqInst) Check(res *vrt.Result) []vrt.Violation {
 
 func maskVal(s string) string {
 	if i := strings.Index(s, "|v"); i >= 0 {
-		return s[:i] + "|<value>"
+		f := ""
+		if j := strings.Index(s[i:], ":"); j >= 0 {
+			f = s[i+j:]
+		}
+		return s[:i] + "|<value>" + f
 	}
 	return s
 }
 
 func describeVal(got, want string) string {
 	switch {
+	case strings.HasSuffix(got, ":deadline"):
+		return "a context with a deadline the publish context does not have"
 	case strings.HasSuffix(got, ":cancelled"):
 		return "a cancelled context"
 	case got == "":
@@ -248,6 +281,18 @@ func seqcases(thorough bool) []seqcase {
 		for _, t2 := range []int{0, 1} {
 			l = append(l, seqcase{Pubs: []pubSpec{{Ty: 0}, {Ty: t2}, {Ty: 0}}, Swap: sw})
 			l = append(l, seqcase{Pubs: []pubSpec{{Ty: 0, Cancelled: true}, {Ty: t2}}, Swap: sw})
+		}
+	}
+	// a persisting bus, with and without a persistence timeout (typed publishes)
+	for _, st := range []int{1, 2} {
+		for t1 := 0; t1 < 2; t1++ {
+			for t2 := 0; t2 < 2; t2++ {
+				for _, c1 := range []bool{false, true} {
+					for _, c2 := range []bool{false, true} {
+						l = append(l, seqcase{Pubs: []pubSpec{{Ty: t1, Cancelled: c1}, {Ty: t2, Cancelled: c2}}, Store: st})
+					}
+				}
+			}
 		}
 	}
 	return l
